@@ -41,7 +41,7 @@ def M44.extractSHRTOrd_XZY {α : Type} [Add α] [Sub α] [Mul α] [Div α] [Neg 
   if t18 = (0 : α) then
     (false, ⟨(0 : α), (0 : α), (0 : α)⟩, ⟨(0 : α), (0 : α), (0 : α)⟩, ⟨(0 : α), (0 : α), (0 : α)⟩, ⟨(0 : α), (0 : α), (0 : α)⟩)
   else
-    (true, ⟨(t36).x, (t36).y, (t36).z⟩, ⟨(t40).x, (t40).y, (t40).z⟩, ⟨(t48).x, (t48).y, (t48).z⟩, ⟨m.x30, m.x31, m.x32⟩)
+    (true, ⟨(t36).x, (t36).y, (t36).z⟩, ⟨(t40).x, (t40).y, (t40).z⟩, ⟨(t48).x, (t48).z, (t48).y⟩, ⟨m.x30, m.x31, m.x32⟩)
 
 /-- extracted from the C++ template at T = Sym; 2 path(s) -/
 def M44.extractSHRTEuler_XZY {α : Type} [Add α] [Sub α] [Mul α] [Div α] [Neg α] [LT α] [LE α] [DecidableLT α] [DecidableLE α] [DecidableEq α] [OfNat α 0] [OfNat α 1] [OfNat α 2] (tmin : α) (tmax : α) (sqrt : α → α) (sin : α → α) (cos : α → α) (atan2 : α → α → α) (m : M44 α) : (Bool × (V3 α) × (V3 α) × (V3 α) × (V3 α) × Int) :=
@@ -54,7 +54,7 @@ def M44.extractSHRTEuler_XZY {α : Type} [Add α] [Sub α] [Mul α] [Div α] [Ne
   if t18 = (0 : α) then
     (false, ⟨(0 : α), (0 : α), (0 : α)⟩, ⟨(0 : α), (0 : α), (0 : α)⟩, ⟨(0 : α), (0 : α), (0 : α)⟩, ⟨(0 : α), (0 : α), (0 : α)⟩, (1 : Int))
   else
-    (true, ⟨(t36).x, (t36).y, (t36).z⟩, ⟨(t40).x, (t40).y, (t40).z⟩, ⟨(t48).x, (t48).z, (t48).y⟩, ⟨m.x30, m.x31, m.x32⟩, (1 : Int))
+    (true, ⟨(t36).x, (t36).y, (t36).z⟩, ⟨(t40).x, (t40).y, (t40).z⟩, ⟨(t48).x, (t48).y, (t48).z⟩, ⟨m.x30, m.x31, m.x32⟩, (1 : Int))
 
 /-- extracted from the C++ template at T = Sym; 2 path(s) -/
 def M44.extractSHRTOrd_YZX {α : Type} [Add α] [Sub α] [Mul α] [Div α] [Neg α] [LT α] [LE α] [DecidableLT α] [DecidableLE α] [DecidableEq α] [OfNat α 0] [OfNat α 1] [OfNat α 2] (tmin : α) (tmax : α) (sqrt : α → α) (sin : α → α) (cos : α → α) (atan2 : α → α → α) (m : M44 α) : (Bool × (V3 α) × (V3 α) × (V3 α) × (V3 α)) :=
@@ -67,7 +67,7 @@ def M44.extractSHRTOrd_YZX {α : Type} [Add α] [Sub α] [Mul α] [Div α] [Neg 
   if t18 = (0 : α) then
     (false, ⟨(0 : α), (0 : α), (0 : α)⟩, ⟨(0 : α), (0 : α), (0 : α)⟩, ⟨(0 : α), (0 : α), (0 : α)⟩, ⟨(0 : α), (0 : α), (0 : α)⟩)
   else
-    (true, ⟨(t36).x, (t36).y, (t36).z⟩, ⟨(t40).x, (t40).y, (t40).z⟩, ⟨(t52).x, (t52).y, (t52).z⟩, ⟨m.x30, m.x31, m.x32⟩)
+    (true, ⟨(t36).x, (t36).y, (t36).z⟩, ⟨(t40).x, (t40).y, (t40).z⟩, ⟨(t52).z, (t52).x, (t52).y⟩, ⟨m.x30, m.x31, m.x32⟩)
 
 /-- extracted from the C++ template at T = Sym; 2 path(s) -/
 def M44.extractSHRTEuler_YZX {α : Type} [Add α] [Sub α] [Mul α] [Div α] [Neg α] [LT α] [LE α] [DecidableLT α] [DecidableLE α] [DecidableEq α] [OfNat α 0] [OfNat α 1] [OfNat α 2] (tmin : α) (tmax : α) (sqrt : α → α) (sin : α → α) (cos : α → α) (atan2 : α → α → α) (m : M44 α) : (Bool × (V3 α) × (V3 α) × (V3 α) × (V3 α) × Int) :=
@@ -80,7 +80,7 @@ def M44.extractSHRTEuler_YZX {α : Type} [Add α] [Sub α] [Mul α] [Div α] [Ne
   if t18 = (0 : α) then
     (false, ⟨(0 : α), (0 : α), (0 : α)⟩, ⟨(0 : α), (0 : α), (0 : α)⟩, ⟨(0 : α), (0 : α), (0 : α)⟩, ⟨(0 : α), (0 : α), (0 : α)⟩, (4353 : Int))
   else
-    (true, ⟨(t36).x, (t36).y, (t36).z⟩, ⟨(t40).x, (t40).y, (t40).z⟩, ⟨(t52).y, (t52).z, (t52).x⟩, ⟨m.x30, m.x31, m.x32⟩, (4353 : Int))
+    (true, ⟨(t36).x, (t36).y, (t36).z⟩, ⟨(t40).x, (t40).y, (t40).z⟩, ⟨(t52).x, (t52).y, (t52).z⟩, ⟨m.x30, m.x31, m.x32⟩, (4353 : Int))
 
 /-- extracted from the C++ template at T = Sym; 2 path(s) -/
 def M44.extractSHRTOrd_YXZ {α : Type} [Add α] [Sub α] [Mul α] [Div α] [Neg α] [LT α] [LE α] [DecidableLT α] [DecidableLE α] [DecidableEq α] [OfNat α 0] [OfNat α 1] [OfNat α 2] (tmin : α) (tmax : α) (sqrt : α → α) (sin : α → α) (cos : α → α) (atan2 : α → α → α) (m : M44 α) : (Bool × (V3 α) × (V3 α) × (V3 α) × (V3 α)) :=
@@ -93,7 +93,7 @@ def M44.extractSHRTOrd_YXZ {α : Type} [Add α] [Sub α] [Mul α] [Div α] [Neg 
   if t18 = (0 : α) then
     (false, ⟨(0 : α), (0 : α), (0 : α)⟩, ⟨(0 : α), (0 : α), (0 : α)⟩, ⟨(0 : α), (0 : α), (0 : α)⟩, ⟨(0 : α), (0 : α), (0 : α)⟩)
   else
-    (true, ⟨(t36).x, (t36).y, (t36).z⟩, ⟨(t40).x, (t40).y, (t40).z⟩, ⟨(t56).x, (t56).y, (t56).z⟩, ⟨m.x30, m.x31, m.x32⟩)
+    (true, ⟨(t36).x, (t36).y, (t36).z⟩, ⟨(t40).x, (t40).y, (t40).z⟩, ⟨(t56).y, (t56).x, (t56).z⟩, ⟨m.x30, m.x31, m.x32⟩)
 
 /-- extracted from the C++ template at T = Sym; 2 path(s) -/
 def M44.extractSHRTEuler_YXZ {α : Type} [Add α] [Sub α] [Mul α] [Div α] [Neg α] [LT α] [LE α] [DecidableLT α] [DecidableLE α] [DecidableEq α] [OfNat α 0] [OfNat α 1] [OfNat α 2] (tmin : α) (tmax : α) (sqrt : α → α) (sin : α → α) (cos : α → α) (atan2 : α → α → α) (m : M44 α) : (Bool × (V3 α) × (V3 α) × (V3 α) × (V3 α) × Int) :=
@@ -106,7 +106,7 @@ def M44.extractSHRTEuler_YXZ {α : Type} [Add α] [Sub α] [Mul α] [Div α] [Ne
   if t18 = (0 : α) then
     (false, ⟨(0 : α), (0 : α), (0 : α)⟩, ⟨(0 : α), (0 : α), (0 : α)⟩, ⟨(0 : α), (0 : α), (0 : α)⟩, ⟨(0 : α), (0 : α), (0 : α)⟩, (4097 : Int))
   else
-    (true, ⟨(t36).x, (t36).y, (t36).z⟩, ⟨(t40).x, (t40).y, (t40).z⟩, ⟨(t56).y, (t56).x, (t56).z⟩, ⟨m.x30, m.x31, m.x32⟩, (4097 : Int))
+    (true, ⟨(t36).x, (t36).y, (t36).z⟩, ⟨(t40).x, (t40).y, (t40).z⟩, ⟨(t56).x, (t56).y, (t56).z⟩, ⟨m.x30, m.x31, m.x32⟩, (4097 : Int))
 
 /-- extracted from the C++ template at T = Sym; 2 path(s) -/
 def M44.extractSHRTOrd_ZXY {α : Type} [Add α] [Sub α] [Mul α] [Div α] [Neg α] [LT α] [LE α] [DecidableLT α] [DecidableLE α] [DecidableEq α] [OfNat α 0] [OfNat α 1] [OfNat α 2] (tmin : α) (tmax : α) (sqrt : α → α) (sin : α → α) (cos : α → α) (atan2 : α → α → α) (m : M44 α) : (Bool × (V3 α) × (V3 α) × (V3 α) × (V3 α)) :=
@@ -119,7 +119,7 @@ def M44.extractSHRTOrd_ZXY {α : Type} [Add α] [Sub α] [Mul α] [Div α] [Neg 
   if t18 = (0 : α) then
     (false, ⟨(0 : α), (0 : α), (0 : α)⟩, ⟨(0 : α), (0 : α), (0 : α)⟩, ⟨(0 : α), (0 : α), (0 : α)⟩, ⟨(0 : α), (0 : α), (0 : α)⟩)
   else
-    (true, ⟨(t36).x, (t36).y, (t36).z⟩, ⟨(t40).x, (t40).y, (t40).z⟩, ⟨(t60).x, (t60).y, (t60).z⟩, ⟨m.x30, m.x31, m.x32⟩)
+    (true, ⟨(t36).x, (t36).y, (t36).z⟩, ⟨(t40).x, (t40).y, (t40).z⟩, ⟨(t60).y, (t60).z, (t60).x⟩, ⟨m.x30, m.x31, m.x32⟩)
 
 /-- extracted from the C++ template at T = Sym; 2 path(s) -/
 def M44.extractSHRTEuler_ZXY {α : Type} [Add α] [Sub α] [Mul α] [Div α] [Neg α] [LT α] [LE α] [DecidableLT α] [DecidableLE α] [DecidableEq α] [OfNat α 0] [OfNat α 1] [OfNat α 2] (tmin : α) (tmax : α) (sqrt : α → α) (sin : α → α) (cos : α → α) (atan2 : α → α → α) (m : M44 α) : (Bool × (V3 α) × (V3 α) × (V3 α) × (V3 α) × Int) :=
@@ -132,7 +132,7 @@ def M44.extractSHRTEuler_ZXY {α : Type} [Add α] [Sub α] [Mul α] [Div α] [Ne
   if t18 = (0 : α) then
     (false, ⟨(0 : α), (0 : α), (0 : α)⟩, ⟨(0 : α), (0 : α), (0 : α)⟩, ⟨(0 : α), (0 : α), (0 : α)⟩, ⟨(0 : α), (0 : α), (0 : α)⟩, (8449 : Int))
   else
-    (true, ⟨(t36).x, (t36).y, (t36).z⟩, ⟨(t40).x, (t40).y, (t40).z⟩, ⟨(t60).z, (t60).x, (t60).y⟩, ⟨m.x30, m.x31, m.x32⟩, (8449 : Int))
+    (true, ⟨(t36).x, (t36).y, (t36).z⟩, ⟨(t40).x, (t40).y, (t40).z⟩, ⟨(t60).x, (t60).y, (t60).z⟩, ⟨m.x30, m.x31, m.x32⟩, (8449 : Int))
 
 /-- extracted from the C++ template at T = Sym; 2 path(s) -/
 def M44.extractSHRTOrd_ZYX {α : Type} [Add α] [Sub α] [Mul α] [Div α] [Neg α] [LT α] [LE α] [DecidableLT α] [DecidableLE α] [DecidableEq α] [OfNat α 0] [OfNat α 1] [OfNat α 2] (tmin : α) (tmax : α) (sqrt : α → α) (sin : α → α) (cos : α → α) (atan2 : α → α → α) (m : M44 α) : (Bool × (V3 α) × (V3 α) × (V3 α) × (V3 α)) :=
@@ -145,7 +145,7 @@ def M44.extractSHRTOrd_ZYX {α : Type} [Add α] [Sub α] [Mul α] [Div α] [Neg 
   if t18 = (0 : α) then
     (false, ⟨(0 : α), (0 : α), (0 : α)⟩, ⟨(0 : α), (0 : α), (0 : α)⟩, ⟨(0 : α), (0 : α), (0 : α)⟩, ⟨(0 : α), (0 : α), (0 : α)⟩)
   else
-    (true, ⟨(t36).x, (t36).y, (t36).z⟩, ⟨(t40).x, (t40).y, (t40).z⟩, ⟨(t64).x, (t64).y, (t64).z⟩, ⟨m.x30, m.x31, m.x32⟩)
+    (true, ⟨(t36).x, (t36).y, (t36).z⟩, ⟨(t40).x, (t40).y, (t40).z⟩, ⟨(t64).z, (t64).y, (t64).x⟩, ⟨m.x30, m.x31, m.x32⟩)
 
 /-- extracted from the C++ template at T = Sym; 2 path(s) -/
 def M44.extractSHRTEuler_ZYX {α : Type} [Add α] [Sub α] [Mul α] [Div α] [Neg α] [LT α] [LE α] [DecidableLT α] [DecidableLE α] [DecidableEq α] [OfNat α 0] [OfNat α 1] [OfNat α 2] (tmin : α) (tmax : α) (sqrt : α → α) (sin : α → α) (cos : α → α) (atan2 : α → α → α) (m : M44 α) : (Bool × (V3 α) × (V3 α) × (V3 α) × (V3 α) × Int) :=
@@ -158,7 +158,7 @@ def M44.extractSHRTEuler_ZYX {α : Type} [Add α] [Sub α] [Mul α] [Div α] [Ne
   if t18 = (0 : α) then
     (false, ⟨(0 : α), (0 : α), (0 : α)⟩, ⟨(0 : α), (0 : α), (0 : α)⟩, ⟨(0 : α), (0 : α), (0 : α)⟩, ⟨(0 : α), (0 : α), (0 : α)⟩, (8193 : Int))
   else
-    (true, ⟨(t36).x, (t36).y, (t36).z⟩, ⟨(t40).x, (t40).y, (t40).z⟩, ⟨(t64).z, (t64).y, (t64).x⟩, ⟨m.x30, m.x31, m.x32⟩, (8193 : Int))
+    (true, ⟨(t36).x, (t36).y, (t36).z⟩, ⟨(t40).x, (t40).y, (t40).z⟩, ⟨(t64).x, (t64).y, (t64).z⟩, ⟨m.x30, m.x31, m.x32⟩, (8193 : Int))
 
 /-- extracted from the C++ template at T = Sym; 2 path(s) -/
 def M44.extractSHRTOrd_XZX {α : Type} [Add α] [Sub α] [Mul α] [Div α] [Neg α] [LT α] [LE α] [DecidableLT α] [DecidableLE α] [DecidableEq α] [OfNat α 0] [OfNat α 1] [OfNat α 2] (tmin : α) (tmax : α) (sqrt : α → α) (sin : α → α) (cos : α → α) (atan2 : α → α → α) (m : M44 α) : (Bool × (V3 α) × (V3 α) × (V3 α) × (V3 α)) :=
@@ -171,7 +171,7 @@ def M44.extractSHRTOrd_XZX {α : Type} [Add α] [Sub α] [Mul α] [Div α] [Neg 
   if t18 = (0 : α) then
     (false, ⟨(0 : α), (0 : α), (0 : α)⟩, ⟨(0 : α), (0 : α), (0 : α)⟩, ⟨(0 : α), (0 : α), (0 : α)⟩, ⟨(0 : α), (0 : α), (0 : α)⟩)
   else
-    (true, ⟨(t36).x, (t36).y, (t36).z⟩, ⟨(t40).x, (t40).y, (t40).z⟩, ⟨(t68).x, (t68).y, (t68).z⟩, ⟨m.x30, m.x31, m.x32⟩)
+    (true, ⟨(t36).x, (t36).y, (t36).z⟩, ⟨(t40).x, (t40).y, (t40).z⟩, ⟨(t68).x, (t68).z, (t68).y⟩, ⟨m.x30, m.x31, m.x32⟩)
 
 /-- extracted from the C++ template at T = Sym; 2 path(s) -/
 def M44.extractSHRTEuler_XZX {α : Type} [Add α] [Sub α] [Mul α] [Div α] [Neg α] [LT α] [LE α] [DecidableLT α] [DecidableLE α] [DecidableEq α] [OfNat α 0] [OfNat α 1] [OfNat α 2] (tmin : α) (tmax : α) (sqrt : α → α) (sin : α → α) (cos : α → α) (atan2 : α → α → α) (m : M44 α) : (Bool × (V3 α) × (V3 α) × (V3 α) × (V3 α) × Int) :=
@@ -184,7 +184,7 @@ def M44.extractSHRTEuler_XZX {α : Type} [Add α] [Sub α] [Mul α] [Div α] [Ne
   if t18 = (0 : α) then
     (false, ⟨(0 : α), (0 : α), (0 : α)⟩, ⟨(0 : α), (0 : α), (0 : α)⟩, ⟨(0 : α), (0 : α), (0 : α)⟩, ⟨(0 : α), (0 : α), (0 : α)⟩, (17 : Int))
   else
-    (true, ⟨(t36).x, (t36).y, (t36).z⟩, ⟨(t40).x, (t40).y, (t40).z⟩, ⟨(t68).x, (t68).z, (t68).y⟩, ⟨m.x30, m.x31, m.x32⟩, (17 : Int))
+    (true, ⟨(t36).x, (t36).y, (t36).z⟩, ⟨(t40).x, (t40).y, (t40).z⟩, ⟨(t68).x, (t68).y, (t68).z⟩, ⟨m.x30, m.x31, m.x32⟩, (17 : Int))
 
 /-- extracted from the C++ template at T = Sym; 2 path(s) -/
 def M44.extractSHRTOrd_XYX {α : Type} [Add α] [Sub α] [Mul α] [Div α] [Neg α] [LT α] [LE α] [DecidableLT α] [DecidableLE α] [DecidableEq α] [OfNat α 0] [OfNat α 1] [OfNat α 2] (tmin : α) (tmax : α) (sqrt : α → α) (sin : α → α) (cos : α → α) (atan2 : α → α → α) (m : M44 α) : (Bool × (V3 α) × (V3 α) × (V3 α) × (V3 α)) :=
@@ -223,7 +223,7 @@ def M44.extractSHRTOrd_YXY {α : Type} [Add α] [Sub α] [Mul α] [Div α] [Neg 
   if t18 = (0 : α) then
     (false, ⟨(0 : α), (0 : α), (0 : α)⟩, ⟨(0 : α), (0 : α), (0 : α)⟩, ⟨(0 : α), (0 : α), (0 : α)⟩, ⟨(0 : α), (0 : α), (0 : α)⟩)
   else
-    (true, ⟨(t36).x, (t36).y, (t36).z⟩, ⟨(t40).x, (t40).y, (t40).z⟩, ⟨(t76).x, (t76).y, (t76).z⟩, ⟨m.x30, m.x31, m.x32⟩)
+    (true, ⟨(t36).x, (t36).y, (t36).z⟩, ⟨(t40).x, (t40).y, (t40).z⟩, ⟨(t76).y, (t76).x, (t76).z⟩, ⟨m.x30, m.x31, m.x32⟩)
 
 /-- extracted from the C++ template at T = Sym; 2 path(s) -/
 def M44.extractSHRTEuler_YXY {α : Type} [Add α] [Sub α] [Mul α] [Div α] [Neg α] [LT α] [LE α] [DecidableLT α] [DecidableLE α] [DecidableEq α] [OfNat α 0] [OfNat α 1] [OfNat α 2] (tmin : α) (tmax : α) (sqrt : α → α) (sin : α → α) (cos : α → α) (atan2 : α → α → α) (m : M44 α) : (Bool × (V3 α) × (V3 α) × (V3 α) × (V3 α) × Int) :=
@@ -236,7 +236,7 @@ def M44.extractSHRTEuler_YXY {α : Type} [Add α] [Sub α] [Mul α] [Div α] [Ne
   if t18 = (0 : α) then
     (false, ⟨(0 : α), (0 : α), (0 : α)⟩, ⟨(0 : α), (0 : α), (0 : α)⟩, ⟨(0 : α), (0 : α), (0 : α)⟩, ⟨(0 : α), (0 : α), (0 : α)⟩, (4113 : Int))
   else
-    (true, ⟨(t36).x, (t36).y, (t36).z⟩, ⟨(t40).x, (t40).y, (t40).z⟩, ⟨(t76).y, (t76).x, (t76).z⟩, ⟨m.x30, m.x31, m.x32⟩, (4113 : Int))
+    (true, ⟨(t36).x, (t36).y, (t36).z⟩, ⟨(t40).x, (t40).y, (t40).z⟩, ⟨(t76).x, (t76).y, (t76).z⟩, ⟨m.x30, m.x31, m.x32⟩, (4113 : Int))
 
 /-- extracted from the C++ template at T = Sym; 2 path(s) -/
 def M44.extractSHRTOrd_YZY {α : Type} [Add α] [Sub α] [Mul α] [Div α] [Neg α] [LT α] [LE α] [DecidableLT α] [DecidableLE α] [DecidableEq α] [OfNat α 0] [OfNat α 1] [OfNat α 2] (tmin : α) (tmax : α) (sqrt : α → α) (sin : α → α) (cos : α → α) (atan2 : α → α → α) (m : M44 α) : (Bool × (V3 α) × (V3 α) × (V3 α) × (V3 α)) :=
@@ -249,7 +249,7 @@ def M44.extractSHRTOrd_YZY {α : Type} [Add α] [Sub α] [Mul α] [Div α] [Neg 
   if t18 = (0 : α) then
     (false, ⟨(0 : α), (0 : α), (0 : α)⟩, ⟨(0 : α), (0 : α), (0 : α)⟩, ⟨(0 : α), (0 : α), (0 : α)⟩, ⟨(0 : α), (0 : α), (0 : α)⟩)
   else
-    (true, ⟨(t36).x, (t36).y, (t36).z⟩, ⟨(t40).x, (t40).y, (t40).z⟩, ⟨(t80).x, (t80).y, (t80).z⟩, ⟨m.x30, m.x31, m.x32⟩)
+    (true, ⟨(t36).x, (t36).y, (t36).z⟩, ⟨(t40).x, (t40).y, (t40).z⟩, ⟨(t80).z, (t80).x, (t80).y⟩, ⟨m.x30, m.x31, m.x32⟩)
 
 /-- extracted from the C++ template at T = Sym; 2 path(s) -/
 def M44.extractSHRTEuler_YZY {α : Type} [Add α] [Sub α] [Mul α] [Div α] [Neg α] [LT α] [LE α] [DecidableLT α] [DecidableLE α] [DecidableEq α] [OfNat α 0] [OfNat α 1] [OfNat α 2] (tmin : α) (tmax : α) (sqrt : α → α) (sin : α → α) (cos : α → α) (atan2 : α → α → α) (m : M44 α) : (Bool × (V3 α) × (V3 α) × (V3 α) × (V3 α) × Int) :=
@@ -262,7 +262,7 @@ def M44.extractSHRTEuler_YZY {α : Type} [Add α] [Sub α] [Mul α] [Div α] [Ne
   if t18 = (0 : α) then
     (false, ⟨(0 : α), (0 : α), (0 : α)⟩, ⟨(0 : α), (0 : α), (0 : α)⟩, ⟨(0 : α), (0 : α), (0 : α)⟩, ⟨(0 : α), (0 : α), (0 : α)⟩, (4369 : Int))
   else
-    (true, ⟨(t36).x, (t36).y, (t36).z⟩, ⟨(t40).x, (t40).y, (t40).z⟩, ⟨(t80).y, (t80).z, (t80).x⟩, ⟨m.x30, m.x31, m.x32⟩, (4369 : Int))
+    (true, ⟨(t36).x, (t36).y, (t36).z⟩, ⟨(t40).x, (t40).y, (t40).z⟩, ⟨(t80).x, (t80).y, (t80).z⟩, ⟨m.x30, m.x31, m.x32⟩, (4369 : Int))
 
 /-- extracted from the C++ template at T = Sym; 2 path(s) -/
 def M44.extractSHRTOrd_ZYZ {α : Type} [Add α] [Sub α] [Mul α] [Div α] [Neg α] [LT α] [LE α] [DecidableLT α] [DecidableLE α] [DecidableEq α] [OfNat α 0] [OfNat α 1] [OfNat α 2] (tmin : α) (tmax : α) (sqrt : α → α) (sin : α → α) (cos : α → α) (atan2 : α → α → α) (m : M44 α) : (Bool × (V3 α) × (V3 α) × (V3 α) × (V3 α)) :=
@@ -275,7 +275,7 @@ def M44.extractSHRTOrd_ZYZ {α : Type} [Add α] [Sub α] [Mul α] [Div α] [Neg 
   if t18 = (0 : α) then
     (false, ⟨(0 : α), (0 : α), (0 : α)⟩, ⟨(0 : α), (0 : α), (0 : α)⟩, ⟨(0 : α), (0 : α), (0 : α)⟩, ⟨(0 : α), (0 : α), (0 : α)⟩)
   else
-    (true, ⟨(t36).x, (t36).y, (t36).z⟩, ⟨(t40).x, (t40).y, (t40).z⟩, ⟨(t84).x, (t84).y, (t84).z⟩, ⟨m.x30, m.x31, m.x32⟩)
+    (true, ⟨(t36).x, (t36).y, (t36).z⟩, ⟨(t40).x, (t40).y, (t40).z⟩, ⟨(t84).z, (t84).y, (t84).x⟩, ⟨m.x30, m.x31, m.x32⟩)
 
 /-- extracted from the C++ template at T = Sym; 2 path(s) -/
 def M44.extractSHRTEuler_ZYZ {α : Type} [Add α] [Sub α] [Mul α] [Div α] [Neg α] [LT α] [LE α] [DecidableLT α] [DecidableLE α] [DecidableEq α] [OfNat α 0] [OfNat α 1] [OfNat α 2] (tmin : α) (tmax : α) (sqrt : α → α) (sin : α → α) (cos : α → α) (atan2 : α → α → α) (m : M44 α) : (Bool × (V3 α) × (V3 α) × (V3 α) × (V3 α) × Int) :=
@@ -288,7 +288,7 @@ def M44.extractSHRTEuler_ZYZ {α : Type} [Add α] [Sub α] [Mul α] [Div α] [Ne
   if t18 = (0 : α) then
     (false, ⟨(0 : α), (0 : α), (0 : α)⟩, ⟨(0 : α), (0 : α), (0 : α)⟩, ⟨(0 : α), (0 : α), (0 : α)⟩, ⟨(0 : α), (0 : α), (0 : α)⟩, (8209 : Int))
   else
-    (true, ⟨(t36).x, (t36).y, (t36).z⟩, ⟨(t40).x, (t40).y, (t40).z⟩, ⟨(t84).z, (t84).y, (t84).x⟩, ⟨m.x30, m.x31, m.x32⟩, (8209 : Int))
+    (true, ⟨(t36).x, (t36).y, (t36).z⟩, ⟨(t40).x, (t40).y, (t40).z⟩, ⟨(t84).x, (t84).y, (t84).z⟩, ⟨m.x30, m.x31, m.x32⟩, (8209 : Int))
 
 /-- extracted from the C++ template at T = Sym; 2 path(s) -/
 def M44.extractSHRTOrd_ZXZ {α : Type} [Add α] [Sub α] [Mul α] [Div α] [Neg α] [LT α] [LE α] [DecidableLT α] [DecidableLE α] [DecidableEq α] [OfNat α 0] [OfNat α 1] [OfNat α 2] (tmin : α) (tmax : α) (sqrt : α → α) (sin : α → α) (cos : α → α) (atan2 : α → α → α) (m : M44 α) : (Bool × (V3 α) × (V3 α) × (V3 α) × (V3 α)) :=
@@ -301,7 +301,7 @@ def M44.extractSHRTOrd_ZXZ {α : Type} [Add α] [Sub α] [Mul α] [Div α] [Neg 
   if t18 = (0 : α) then
     (false, ⟨(0 : α), (0 : α), (0 : α)⟩, ⟨(0 : α), (0 : α), (0 : α)⟩, ⟨(0 : α), (0 : α), (0 : α)⟩, ⟨(0 : α), (0 : α), (0 : α)⟩)
   else
-    (true, ⟨(t36).x, (t36).y, (t36).z⟩, ⟨(t40).x, (t40).y, (t40).z⟩, ⟨(t88).x, (t88).y, (t88).z⟩, ⟨m.x30, m.x31, m.x32⟩)
+    (true, ⟨(t36).x, (t36).y, (t36).z⟩, ⟨(t40).x, (t40).y, (t40).z⟩, ⟨(t88).y, (t88).z, (t88).x⟩, ⟨m.x30, m.x31, m.x32⟩)
 
 /-- extracted from the C++ template at T = Sym; 2 path(s) -/
 def M44.extractSHRTEuler_ZXZ {α : Type} [Add α] [Sub α] [Mul α] [Div α] [Neg α] [LT α] [LE α] [DecidableLT α] [DecidableLE α] [DecidableEq α] [OfNat α 0] [OfNat α 1] [OfNat α 2] (tmin : α) (tmax : α) (sqrt : α → α) (sin : α → α) (cos : α → α) (atan2 : α → α → α) (m : M44 α) : (Bool × (V3 α) × (V3 α) × (V3 α) × (V3 α) × Int) :=
@@ -314,7 +314,7 @@ def M44.extractSHRTEuler_ZXZ {α : Type} [Add α] [Sub α] [Mul α] [Div α] [Ne
   if t18 = (0 : α) then
     (false, ⟨(0 : α), (0 : α), (0 : α)⟩, ⟨(0 : α), (0 : α), (0 : α)⟩, ⟨(0 : α), (0 : α), (0 : α)⟩, ⟨(0 : α), (0 : α), (0 : α)⟩, (8465 : Int))
   else
-    (true, ⟨(t36).x, (t36).y, (t36).z⟩, ⟨(t40).x, (t40).y, (t40).z⟩, ⟨(t88).z, (t88).x, (t88).y⟩, ⟨m.x30, m.x31, m.x32⟩, (8465 : Int))
+    (true, ⟨(t36).x, (t36).y, (t36).z⟩, ⟨(t40).x, (t40).y, (t40).z⟩, ⟨(t88).x, (t88).y, (t88).z⟩, ⟨m.x30, m.x31, m.x32⟩, (8465 : Int))
 
 /-- extracted from the C++ template at T = Sym; 2 path(s) -/
 def M44.extractSHRTOrd_XYZr {α : Type} [Add α] [Sub α] [Mul α] [Div α] [Neg α] [LT α] [LE α] [DecidableLT α] [DecidableLE α] [DecidableEq α] [OfNat α 0] [OfNat α 1] [OfNat α 2] (tmin : α) (tmax : α) (sqrt : α → α) (sin : α → α) (cos : α → α) (atan2 : α → α → α) (m : M44 α) : (Bool × (V3 α) × (V3 α) × (V3 α) × (V3 α)) :=
@@ -327,7 +327,7 @@ def M44.extractSHRTOrd_XYZr {α : Type} [Add α] [Sub α] [Mul α] [Div α] [Neg
   if t18 = (0 : α) then
     (false, ⟨(0 : α), (0 : α), (0 : α)⟩, ⟨(0 : α), (0 : α), (0 : α)⟩, ⟨(0 : α), (0 : α), (0 : α)⟩, ⟨(0 : α), (0 : α), (0 : α)⟩)
   else
-    (true, ⟨(t36).x, (t36).y, (t36).z⟩, ⟨(t40).x, (t40).y, (t40).z⟩, ⟨(t92).x, (t92).y, (t92).z⟩, ⟨m.x30, m.x31, m.x32⟩)
+    (true, ⟨(t36).x, (t36).y, (t36).z⟩, ⟨(t40).x, (t40).y, (t40).z⟩, ⟨(t92).z, (t92).y, (t92).x⟩, ⟨m.x30, m.x31, m.x32⟩)
 
 /-- extracted from the C++ template at T = Sym; 2 path(s) -/
 def M44.extractSHRTEuler_XYZr {α : Type} [Add α] [Sub α] [Mul α] [Div α] [Neg α] [LT α] [LE α] [DecidableLT α] [DecidableLE α] [DecidableEq α] [OfNat α 0] [OfNat α 1] [OfNat α 2] (tmin : α) (tmax : α) (sqrt : α → α) (sin : α → α) (cos : α → α) (atan2 : α → α → α) (m : M44 α) : (Bool × (V3 α) × (V3 α) × (V3 α) × (V3 α) × Int) :=
@@ -340,7 +340,7 @@ def M44.extractSHRTEuler_XYZr {α : Type} [Add α] [Sub α] [Mul α] [Div α] [N
   if t18 = (0 : α) then
     (false, ⟨(0 : α), (0 : α), (0 : α)⟩, ⟨(0 : α), (0 : α), (0 : α)⟩, ⟨(0 : α), (0 : α), (0 : α)⟩, ⟨(0 : α), (0 : α), (0 : α)⟩, (8192 : Int))
   else
-    (true, ⟨(t36).x, (t36).y, (t36).z⟩, ⟨(t40).x, (t40).y, (t40).z⟩, ⟨(t92).z, (t92).y, (t92).x⟩, ⟨m.x30, m.x31, m.x32⟩, (8192 : Int))
+    (true, ⟨(t36).x, (t36).y, (t36).z⟩, ⟨(t40).x, (t40).y, (t40).z⟩, ⟨(t92).x, (t92).y, (t92).z⟩, ⟨m.x30, m.x31, m.x32⟩, (8192 : Int))
 
 /-- extracted from the C++ template at T = Sym; 2 path(s) -/
 def M44.extractSHRTOrd_XZYr {α : Type} [Add α] [Sub α] [Mul α] [Div α] [Neg α] [LT α] [LE α] [DecidableLT α] [DecidableLE α] [DecidableEq α] [OfNat α 0] [OfNat α 1] [OfNat α 2] (tmin : α) (tmax : α) (sqrt : α → α) (sin : α → α) (cos : α → α) (atan2 : α → α → α) (m : M44 α) : (Bool × (V3 α) × (V3 α) × (V3 α) × (V3 α)) :=
@@ -353,7 +353,7 @@ def M44.extractSHRTOrd_XZYr {α : Type} [Add α] [Sub α] [Mul α] [Div α] [Neg
   if t18 = (0 : α) then
     (false, ⟨(0 : α), (0 : α), (0 : α)⟩, ⟨(0 : α), (0 : α), (0 : α)⟩, ⟨(0 : α), (0 : α), (0 : α)⟩, ⟨(0 : α), (0 : α), (0 : α)⟩)
   else
-    (true, ⟨(t36).x, (t36).y, (t36).z⟩, ⟨(t40).x, (t40).y, (t40).z⟩, ⟨(t96).x, (t96).y, (t96).z⟩, ⟨m.x30, m.x31, m.x32⟩)
+    (true, ⟨(t36).x, (t36).y, (t36).z⟩, ⟨(t40).x, (t40).y, (t40).z⟩, ⟨(t96).y, (t96).z, (t96).x⟩, ⟨m.x30, m.x31, m.x32⟩)
 
 /-- extracted from the C++ template at T = Sym; 2 path(s) -/
 def M44.extractSHRTEuler_XZYr {α : Type} [Add α] [Sub α] [Mul α] [Div α] [Neg α] [LT α] [LE α] [DecidableLT α] [DecidableLE α] [DecidableEq α] [OfNat α 0] [OfNat α 1] [OfNat α 2] (tmin : α) (tmax : α) (sqrt : α → α) (sin : α → α) (cos : α → α) (atan2 : α → α → α) (m : M44 α) : (Bool × (V3 α) × (V3 α) × (V3 α) × (V3 α) × Int) :=
@@ -366,7 +366,7 @@ def M44.extractSHRTEuler_XZYr {α : Type} [Add α] [Sub α] [Mul α] [Div α] [N
   if t18 = (0 : α) then
     (false, ⟨(0 : α), (0 : α), (0 : α)⟩, ⟨(0 : α), (0 : α), (0 : α)⟩, ⟨(0 : α), (0 : α), (0 : α)⟩, ⟨(0 : α), (0 : α), (0 : α)⟩, (8448 : Int))
   else
-    (true, ⟨(t36).x, (t36).y, (t36).z⟩, ⟨(t40).x, (t40).y, (t40).z⟩, ⟨(t96).z, (t96).x, (t96).y⟩, ⟨m.x30, m.x31, m.x32⟩, (8448 : Int))
+    (true, ⟨(t36).x, (t36).y, (t36).z⟩, ⟨(t40).x, (t40).y, (t40).z⟩, ⟨(t96).x, (t96).y, (t96).z⟩, ⟨m.x30, m.x31, m.x32⟩, (8448 : Int))
 
 /-- extracted from the C++ template at T = Sym; 2 path(s) -/
 def M44.extractSHRTOrd_YZXr {α : Type} [Add α] [Sub α] [Mul α] [Div α] [Neg α] [LT α] [LE α] [DecidableLT α] [DecidableLE α] [DecidableEq α] [OfNat α 0] [OfNat α 1] [OfNat α 2] (tmin : α) (tmax : α) (sqrt : α → α) (sin : α → α) (cos : α → α) (atan2 : α → α → α) (m : M44 α) : (Bool × (V3 α) × (V3 α) × (V3 α) × (V3 α)) :=
@@ -379,7 +379,7 @@ def M44.extractSHRTOrd_YZXr {α : Type} [Add α] [Sub α] [Mul α] [Div α] [Neg
   if t18 = (0 : α) then
     (false, ⟨(0 : α), (0 : α), (0 : α)⟩, ⟨(0 : α), (0 : α), (0 : α)⟩, ⟨(0 : α), (0 : α), (0 : α)⟩, ⟨(0 : α), (0 : α), (0 : α)⟩)
   else
-    (true, ⟨(t36).x, (t36).y, (t36).z⟩, ⟨(t40).x, (t40).y, (t40).z⟩, ⟨(t100).x, (t100).y, (t100).z⟩, ⟨m.x30, m.x31, m.x32⟩)
+    (true, ⟨(t36).x, (t36).y, (t36).z⟩, ⟨(t40).x, (t40).y, (t40).z⟩, ⟨(t100).y, (t100).x, (t100).z⟩, ⟨m.x30, m.x31, m.x32⟩)
 
 /-- extracted from the C++ template at T = Sym; 2 path(s) -/
 def M44.extractSHRTEuler_YZXr {α : Type} [Add α] [Sub α] [Mul α] [Div α] [Neg α] [LT α] [LE α] [DecidableLT α] [DecidableLE α] [DecidableEq α] [OfNat α 0] [OfNat α 1] [OfNat α 2] (tmin : α) (tmax : α) (sqrt : α → α) (sin : α → α) (cos : α → α) (atan2 : α → α → α) (m : M44 α) : (Bool × (V3 α) × (V3 α) × (V3 α) × (V3 α) × Int) :=
@@ -392,7 +392,7 @@ def M44.extractSHRTEuler_YZXr {α : Type} [Add α] [Sub α] [Mul α] [Div α] [N
   if t18 = (0 : α) then
     (false, ⟨(0 : α), (0 : α), (0 : α)⟩, ⟨(0 : α), (0 : α), (0 : α)⟩, ⟨(0 : α), (0 : α), (0 : α)⟩, ⟨(0 : α), (0 : α), (0 : α)⟩, (4096 : Int))
   else
-    (true, ⟨(t36).x, (t36).y, (t36).z⟩, ⟨(t40).x, (t40).y, (t40).z⟩, ⟨(t100).y, (t100).x, (t100).z⟩, ⟨m.x30, m.x31, m.x32⟩, (4096 : Int))
+    (true, ⟨(t36).x, (t36).y, (t36).z⟩, ⟨(t40).x, (t40).y, (t40).z⟩, ⟨(t100).x, (t100).y, (t100).z⟩, ⟨m.x30, m.x31, m.x32⟩, (4096 : Int))
 
 /-- extracted from the C++ template at T = Sym; 2 path(s) -/
 def M44.extractSHRTOrd_YXZr {α : Type} [Add α] [Sub α] [Mul α] [Div α] [Neg α] [LT α] [LE α] [DecidableLT α] [DecidableLE α] [DecidableEq α] [OfNat α 0] [OfNat α 1] [OfNat α 2] (tmin : α) (tmax : α) (sqrt : α → α) (sin : α → α) (cos : α → α) (atan2 : α → α → α) (m : M44 α) : (Bool × (V3 α) × (V3 α) × (V3 α) × (V3 α)) :=
@@ -405,7 +405,7 @@ def M44.extractSHRTOrd_YXZr {α : Type} [Add α] [Sub α] [Mul α] [Div α] [Neg
   if t18 = (0 : α) then
     (false, ⟨(0 : α), (0 : α), (0 : α)⟩, ⟨(0 : α), (0 : α), (0 : α)⟩, ⟨(0 : α), (0 : α), (0 : α)⟩, ⟨(0 : α), (0 : α), (0 : α)⟩)
   else
-    (true, ⟨(t36).x, (t36).y, (t36).z⟩, ⟨(t40).x, (t40).y, (t40).z⟩, ⟨(t104).x, (t104).y, (t104).z⟩, ⟨m.x30, m.x31, m.x32⟩)
+    (true, ⟨(t36).x, (t36).y, (t36).z⟩, ⟨(t40).x, (t40).y, (t40).z⟩, ⟨(t104).z, (t104).x, (t104).y⟩, ⟨m.x30, m.x31, m.x32⟩)
 
 /-- extracted from the C++ template at T = Sym; 2 path(s) -/
 def M44.extractSHRTEuler_YXZr {α : Type} [Add α] [Sub α] [Mul α] [Div α] [Neg α] [LT α] [LE α] [DecidableLT α] [DecidableLE α] [DecidableEq α] [OfNat α 0] [OfNat α 1] [OfNat α 2] (tmin : α) (tmax : α) (sqrt : α → α) (sin : α → α) (cos : α → α) (atan2 : α → α → α) (m : M44 α) : (Bool × (V3 α) × (V3 α) × (V3 α) × (V3 α) × Int) :=
@@ -418,7 +418,7 @@ def M44.extractSHRTEuler_YXZr {α : Type} [Add α] [Sub α] [Mul α] [Div α] [N
   if t18 = (0 : α) then
     (false, ⟨(0 : α), (0 : α), (0 : α)⟩, ⟨(0 : α), (0 : α), (0 : α)⟩, ⟨(0 : α), (0 : α), (0 : α)⟩, ⟨(0 : α), (0 : α), (0 : α)⟩, (4352 : Int))
   else
-    (true, ⟨(t36).x, (t36).y, (t36).z⟩, ⟨(t40).x, (t40).y, (t40).z⟩, ⟨(t104).y, (t104).z, (t104).x⟩, ⟨m.x30, m.x31, m.x32⟩, (4352 : Int))
+    (true, ⟨(t36).x, (t36).y, (t36).z⟩, ⟨(t40).x, (t40).y, (t40).z⟩, ⟨(t104).x, (t104).y, (t104).z⟩, ⟨m.x30, m.x31, m.x32⟩, (4352 : Int))
 
 /-- extracted from the C++ template at T = Sym; 2 path(s) -/
 def M44.extractSHRTOrd_ZXYr {α : Type} [Add α] [Sub α] [Mul α] [Div α] [Neg α] [LT α] [LE α] [DecidableLT α] [DecidableLE α] [DecidableEq α] [OfNat α 0] [OfNat α 1] [OfNat α 2] (tmin : α) (tmax : α) (sqrt : α → α) (sin : α → α) (cos : α → α) (atan2 : α → α → α) (m : M44 α) : (Bool × (V3 α) × (V3 α) × (V3 α) × (V3 α)) :=
@@ -431,7 +431,7 @@ def M44.extractSHRTOrd_ZXYr {α : Type} [Add α] [Sub α] [Mul α] [Div α] [Neg
   if t18 = (0 : α) then
     (false, ⟨(0 : α), (0 : α), (0 : α)⟩, ⟨(0 : α), (0 : α), (0 : α)⟩, ⟨(0 : α), (0 : α), (0 : α)⟩, ⟨(0 : α), (0 : α), (0 : α)⟩)
   else
-    (true, ⟨(t36).x, (t36).y, (t36).z⟩, ⟨(t40).x, (t40).y, (t40).z⟩, ⟨(t108).x, (t108).y, (t108).z⟩, ⟨m.x30, m.x31, m.x32⟩)
+    (true, ⟨(t36).x, (t36).y, (t36).z⟩, ⟨(t40).x, (t40).y, (t40).z⟩, ⟨(t108).x, (t108).z, (t108).y⟩, ⟨m.x30, m.x31, m.x32⟩)
 
 /-- extracted from the C++ template at T = Sym; 2 path(s) -/
 def M44.extractSHRTEuler_ZXYr {α : Type} [Add α] [Sub α] [Mul α] [Div α] [Neg α] [LT α] [LE α] [DecidableLT α] [DecidableLE α] [DecidableEq α] [OfNat α 0] [OfNat α 1] [OfNat α 2] (tmin : α) (tmax : α) (sqrt : α → α) (sin : α → α) (cos : α → α) (atan2 : α → α → α) (m : M44 α) : (Bool × (V3 α) × (V3 α) × (V3 α) × (V3 α) × Int) :=
@@ -444,7 +444,7 @@ def M44.extractSHRTEuler_ZXYr {α : Type} [Add α] [Sub α] [Mul α] [Div α] [N
   if t18 = (0 : α) then
     (false, ⟨(0 : α), (0 : α), (0 : α)⟩, ⟨(0 : α), (0 : α), (0 : α)⟩, ⟨(0 : α), (0 : α), (0 : α)⟩, ⟨(0 : α), (0 : α), (0 : α)⟩, (0 : Int))
   else
-    (true, ⟨(t36).x, (t36).y, (t36).z⟩, ⟨(t40).x, (t40).y, (t40).z⟩, ⟨(t108).x, (t108).z, (t108).y⟩, ⟨m.x30, m.x31, m.x32⟩, (0 : Int))
+    (true, ⟨(t36).x, (t36).y, (t36).z⟩, ⟨(t40).x, (t40).y, (t40).z⟩, ⟨(t108).x, (t108).y, (t108).z⟩, ⟨m.x30, m.x31, m.x32⟩, (0 : Int))
 
 /-- extracted from the C++ template at T = Sym; 2 path(s) -/
 def M44.extractSHRTOrd_ZYXr {α : Type} [Add α] [Sub α] [Mul α] [Div α] [Neg α] [LT α] [LE α] [DecidableLT α] [DecidableLE α] [DecidableEq α] [OfNat α 0] [OfNat α 1] [OfNat α 2] (tmin : α) (tmax : α) (sqrt : α → α) (sin : α → α) (cos : α → α) (atan2 : α → α → α) (m : M44 α) : (Bool × (V3 α) × (V3 α) × (V3 α) × (V3 α)) :=
@@ -483,7 +483,7 @@ def M44.extractSHRTOrd_XZXr {α : Type} [Add α] [Sub α] [Mul α] [Div α] [Neg
   if t18 = (0 : α) then
     (false, ⟨(0 : α), (0 : α), (0 : α)⟩, ⟨(0 : α), (0 : α), (0 : α)⟩, ⟨(0 : α), (0 : α), (0 : α)⟩, ⟨(0 : α), (0 : α), (0 : α)⟩)
   else
-    (true, ⟨(t36).x, (t36).y, (t36).z⟩, ⟨(t40).x, (t40).y, (t40).z⟩, ⟨(t116).x, (t116).y, (t116).z⟩, ⟨m.x30, m.x31, m.x32⟩)
+    (true, ⟨(t36).x, (t36).y, (t36).z⟩, ⟨(t40).x, (t40).y, (t40).z⟩, ⟨(t116).y, (t116).z, (t116).x⟩, ⟨m.x30, m.x31, m.x32⟩)
 
 /-- extracted from the C++ template at T = Sym; 2 path(s) -/
 def M44.extractSHRTEuler_XZXr {α : Type} [Add α] [Sub α] [Mul α] [Div α] [Neg α] [LT α] [LE α] [DecidableLT α] [DecidableLE α] [DecidableEq α] [OfNat α 0] [OfNat α 1] [OfNat α 2] (tmin : α) (tmax : α) (sqrt : α → α) (sin : α → α) (cos : α → α) (atan2 : α → α → α) (m : M44 α) : (Bool × (V3 α) × (V3 α) × (V3 α) × (V3 α) × Int) :=
@@ -496,7 +496,7 @@ def M44.extractSHRTEuler_XZXr {α : Type} [Add α] [Sub α] [Mul α] [Div α] [N
   if t18 = (0 : α) then
     (false, ⟨(0 : α), (0 : α), (0 : α)⟩, ⟨(0 : α), (0 : α), (0 : α)⟩, ⟨(0 : α), (0 : α), (0 : α)⟩, ⟨(0 : α), (0 : α), (0 : α)⟩, (8464 : Int))
   else
-    (true, ⟨(t36).x, (t36).y, (t36).z⟩, ⟨(t40).x, (t40).y, (t40).z⟩, ⟨(t116).z, (t116).x, (t116).y⟩, ⟨m.x30, m.x31, m.x32⟩, (8464 : Int))
+    (true, ⟨(t36).x, (t36).y, (t36).z⟩, ⟨(t40).x, (t40).y, (t40).z⟩, ⟨(t116).x, (t116).y, (t116).z⟩, ⟨m.x30, m.x31, m.x32⟩, (8464 : Int))
 
 /-- extracted from the C++ template at T = Sym; 2 path(s) -/
 def M44.extractSHRTOrd_XYXr {α : Type} [Add α] [Sub α] [Mul α] [Div α] [Neg α] [LT α] [LE α] [DecidableLT α] [DecidableLE α] [DecidableEq α] [OfNat α 0] [OfNat α 1] [OfNat α 2] (tmin : α) (tmax : α) (sqrt : α → α) (sin : α → α) (cos : α → α) (atan2 : α → α → α) (m : M44 α) : (Bool × (V3 α) × (V3 α) × (V3 α) × (V3 α)) :=
@@ -509,7 +509,7 @@ def M44.extractSHRTOrd_XYXr {α : Type} [Add α] [Sub α] [Mul α] [Div α] [Neg
   if t18 = (0 : α) then
     (false, ⟨(0 : α), (0 : α), (0 : α)⟩, ⟨(0 : α), (0 : α), (0 : α)⟩, ⟨(0 : α), (0 : α), (0 : α)⟩, ⟨(0 : α), (0 : α), (0 : α)⟩)
   else
-    (true, ⟨(t36).x, (t36).y, (t36).z⟩, ⟨(t40).x, (t40).y, (t40).z⟩, ⟨(t120).x, (t120).y, (t120).z⟩, ⟨m.x30, m.x31, m.x32⟩)
+    (true, ⟨(t36).x, (t36).y, (t36).z⟩, ⟨(t40).x, (t40).y, (t40).z⟩, ⟨(t120).z, (t120).y, (t120).x⟩, ⟨m.x30, m.x31, m.x32⟩)
 
 /-- extracted from the C++ template at T = Sym; 2 path(s) -/
 def M44.extractSHRTEuler_XYXr {α : Type} [Add α] [Sub α] [Mul α] [Div α] [Neg α] [LT α] [LE α] [DecidableLT α] [DecidableLE α] [DecidableEq α] [OfNat α 0] [OfNat α 1] [OfNat α 2] (tmin : α) (tmax : α) (sqrt : α → α) (sin : α → α) (cos : α → α) (atan2 : α → α → α) (m : M44 α) : (Bool × (V3 α) × (V3 α) × (V3 α) × (V3 α) × Int) :=
@@ -522,7 +522,7 @@ def M44.extractSHRTEuler_XYXr {α : Type} [Add α] [Sub α] [Mul α] [Div α] [N
   if t18 = (0 : α) then
     (false, ⟨(0 : α), (0 : α), (0 : α)⟩, ⟨(0 : α), (0 : α), (0 : α)⟩, ⟨(0 : α), (0 : α), (0 : α)⟩, ⟨(0 : α), (0 : α), (0 : α)⟩, (8208 : Int))
   else
-    (true, ⟨(t36).x, (t36).y, (t36).z⟩, ⟨(t40).x, (t40).y, (t40).z⟩, ⟨(t120).z, (t120).y, (t120).x⟩, ⟨m.x30, m.x31, m.x32⟩, (8208 : Int))
+    (true, ⟨(t36).x, (t36).y, (t36).z⟩, ⟨(t40).x, (t40).y, (t40).z⟩, ⟨(t120).x, (t120).y, (t120).z⟩, ⟨m.x30, m.x31, m.x32⟩, (8208 : Int))
 
 /-- extracted from the C++ template at T = Sym; 2 path(s) -/
 def M44.extractSHRTOrd_YXYr {α : Type} [Add α] [Sub α] [Mul α] [Div α] [Neg α] [LT α] [LE α] [DecidableLT α] [DecidableLE α] [DecidableEq α] [OfNat α 0] [OfNat α 1] [OfNat α 2] (tmin : α) (tmax : α) (sqrt : α → α) (sin : α → α) (cos : α → α) (atan2 : α → α → α) (m : M44 α) : (Bool × (V3 α) × (V3 α) × (V3 α) × (V3 α)) :=
@@ -535,7 +535,7 @@ def M44.extractSHRTOrd_YXYr {α : Type} [Add α] [Sub α] [Mul α] [Div α] [Neg
   if t18 = (0 : α) then
     (false, ⟨(0 : α), (0 : α), (0 : α)⟩, ⟨(0 : α), (0 : α), (0 : α)⟩, ⟨(0 : α), (0 : α), (0 : α)⟩, ⟨(0 : α), (0 : α), (0 : α)⟩)
   else
-    (true, ⟨(t36).x, (t36).y, (t36).z⟩, ⟨(t40).x, (t40).y, (t40).z⟩, ⟨(t124).x, (t124).y, (t124).z⟩, ⟨m.x30, m.x31, m.x32⟩)
+    (true, ⟨(t36).x, (t36).y, (t36).z⟩, ⟨(t40).x, (t40).y, (t40).z⟩, ⟨(t124).z, (t124).x, (t124).y⟩, ⟨m.x30, m.x31, m.x32⟩)
 
 /-- extracted from the C++ template at T = Sym; 2 path(s) -/
 def M44.extractSHRTEuler_YXYr {α : Type} [Add α] [Sub α] [Mul α] [Div α] [Neg α] [LT α] [LE α] [DecidableLT α] [DecidableLE α] [DecidableEq α] [OfNat α 0] [OfNat α 1] [OfNat α 2] (tmin : α) (tmax : α) (sqrt : α → α) (sin : α → α) (cos : α → α) (atan2 : α → α → α) (m : M44 α) : (Bool × (V3 α) × (V3 α) × (V3 α) × (V3 α) × Int) :=
@@ -548,7 +548,7 @@ def M44.extractSHRTEuler_YXYr {α : Type} [Add α] [Sub α] [Mul α] [Div α] [N
   if t18 = (0 : α) then
     (false, ⟨(0 : α), (0 : α), (0 : α)⟩, ⟨(0 : α), (0 : α), (0 : α)⟩, ⟨(0 : α), (0 : α), (0 : α)⟩, ⟨(0 : α), (0 : α), (0 : α)⟩, (4368 : Int))
   else
-    (true, ⟨(t36).x, (t36).y, (t36).z⟩, ⟨(t40).x, (t40).y, (t40).z⟩, ⟨(t124).y, (t124).z, (t124).x⟩, ⟨m.x30, m.x31, m.x32⟩, (4368 : Int))
+    (true, ⟨(t36).x, (t36).y, (t36).z⟩, ⟨(t40).x, (t40).y, (t40).z⟩, ⟨(t124).x, (t124).y, (t124).z⟩, ⟨m.x30, m.x31, m.x32⟩, (4368 : Int))
 
 /-- extracted from the C++ template at T = Sym; 2 path(s) -/
 def M44.extractSHRTOrd_YZYr {α : Type} [Add α] [Sub α] [Mul α] [Div α] [Neg α] [LT α] [LE α] [DecidableLT α] [DecidableLE α] [DecidableEq α] [OfNat α 0] [OfNat α 1] [OfNat α 2] (tmin : α) (tmax : α) (sqrt : α → α) (sin : α → α) (cos : α → α) (atan2 : α → α → α) (m : M44 α) : (Bool × (V3 α) × (V3 α) × (V3 α) × (V3 α)) :=
@@ -561,7 +561,7 @@ def M44.extractSHRTOrd_YZYr {α : Type} [Add α] [Sub α] [Mul α] [Div α] [Neg
   if t18 = (0 : α) then
     (false, ⟨(0 : α), (0 : α), (0 : α)⟩, ⟨(0 : α), (0 : α), (0 : α)⟩, ⟨(0 : α), (0 : α), (0 : α)⟩, ⟨(0 : α), (0 : α), (0 : α)⟩)
   else
-    (true, ⟨(t36).x, (t36).y, (t36).z⟩, ⟨(t40).x, (t40).y, (t40).z⟩, ⟨(t128).x, (t128).y, (t128).z⟩, ⟨m.x30, m.x31, m.x32⟩)
+    (true, ⟨(t36).x, (t36).y, (t36).z⟩, ⟨(t40).x, (t40).y, (t40).z⟩, ⟨(t128).y, (t128).x, (t128).z⟩, ⟨m.x30, m.x31, m.x32⟩)
 
 /-- extracted from the C++ template at T = Sym; 2 path(s) -/
 def M44.extractSHRTEuler_YZYr {α : Type} [Add α] [Sub α] [Mul α] [Div α] [Neg α] [LT α] [LE α] [DecidableLT α] [DecidableLE α] [DecidableEq α] [OfNat α 0] [OfNat α 1] [OfNat α 2] (tmin : α) (tmax : α) (sqrt : α → α) (sin : α → α) (cos : α → α) (atan2 : α → α → α) (m : M44 α) : (Bool × (V3 α) × (V3 α) × (V3 α) × (V3 α) × Int) :=
@@ -574,7 +574,7 @@ def M44.extractSHRTEuler_YZYr {α : Type} [Add α] [Sub α] [Mul α] [Div α] [N
   if t18 = (0 : α) then
     (false, ⟨(0 : α), (0 : α), (0 : α)⟩, ⟨(0 : α), (0 : α), (0 : α)⟩, ⟨(0 : α), (0 : α), (0 : α)⟩, ⟨(0 : α), (0 : α), (0 : α)⟩, (4112 : Int))
   else
-    (true, ⟨(t36).x, (t36).y, (t36).z⟩, ⟨(t40).x, (t40).y, (t40).z⟩, ⟨(t128).y, (t128).x, (t128).z⟩, ⟨m.x30, m.x31, m.x32⟩, (4112 : Int))
+    (true, ⟨(t36).x, (t36).y, (t36).z⟩, ⟨(t40).x, (t40).y, (t40).z⟩, ⟨(t128).x, (t128).y, (t128).z⟩, ⟨m.x30, m.x31, m.x32⟩, (4112 : Int))
 
 /-- extracted from the C++ template at T = Sym; 2 path(s) -/
 def M44.extractSHRTOrd_ZYZr {α : Type} [Add α] [Sub α] [Mul α] [Div α] [Neg α] [LT α] [LE α] [DecidableLT α] [DecidableLE α] [DecidableEq α] [OfNat α 0] [OfNat α 1] [OfNat α 2] (tmin : α) (tmax : α) (sqrt : α → α) (sin : α → α) (cos : α → α) (atan2 : α → α → α) (m : M44 α) : (Bool × (V3 α) × (V3 α) × (V3 α) × (V3 α)) :=
@@ -613,7 +613,7 @@ def M44.extractSHRTOrd_ZXZr {α : Type} [Add α] [Sub α] [Mul α] [Div α] [Neg
   if t18 = (0 : α) then
     (false, ⟨(0 : α), (0 : α), (0 : α)⟩, ⟨(0 : α), (0 : α), (0 : α)⟩, ⟨(0 : α), (0 : α), (0 : α)⟩, ⟨(0 : α), (0 : α), (0 : α)⟩)
   else
-    (true, ⟨(t36).x, (t36).y, (t36).z⟩, ⟨(t40).x, (t40).y, (t40).z⟩, ⟨(t136).x, (t136).y, (t136).z⟩, ⟨m.x30, m.x31, m.x32⟩)
+    (true, ⟨(t36).x, (t36).y, (t36).z⟩, ⟨(t40).x, (t40).y, (t40).z⟩, ⟨(t136).x, (t136).z, (t136).y⟩, ⟨m.x30, m.x31, m.x32⟩)
 
 /-- extracted from the C++ template at T = Sym; 2 path(s) -/
 def M44.extractSHRTEuler_ZXZr {α : Type} [Add α] [Sub α] [Mul α] [Div α] [Neg α] [LT α] [LE α] [DecidableLT α] [DecidableLE α] [DecidableEq α] [OfNat α 0] [OfNat α 1] [OfNat α 2] (tmin : α) (tmax : α) (sqrt : α → α) (sin : α → α) (cos : α → α) (atan2 : α → α → α) (m : M44 α) : (Bool × (V3 α) × (V3 α) × (V3 α) × (V3 α) × Int) :=
@@ -626,7 +626,7 @@ def M44.extractSHRTEuler_ZXZr {α : Type} [Add α] [Sub α] [Mul α] [Div α] [N
   if t18 = (0 : α) then
     (false, ⟨(0 : α), (0 : α), (0 : α)⟩, ⟨(0 : α), (0 : α), (0 : α)⟩, ⟨(0 : α), (0 : α), (0 : α)⟩, ⟨(0 : α), (0 : α), (0 : α)⟩, (16 : Int))
   else
-    (true, ⟨(t36).x, (t36).y, (t36).z⟩, ⟨(t40).x, (t40).y, (t40).z⟩, ⟨(t136).x, (t136).z, (t136).y⟩, ⟨m.x30, m.x31, m.x32⟩, (16 : Int))
+    (true, ⟨(t36).x, (t36).y, (t36).z⟩, ⟨(t40).x, (t40).y, (t40).z⟩, ⟨(t136).x, (t136).y, (t136).z⟩, ⟨m.x30, m.x31, m.x32⟩, (16 : Int))
 
 /-- extracted from the C++ template at T = Sym; 2 path(s) -/
 def M44.extractSHRTOrdExc_ZYX {α : Type} [Add α] [Sub α] [Mul α] [Div α] [Neg α] [LT α] [LE α] [DecidableLT α] [DecidableLE α] [DecidableEq α] [OfNat α 0] [OfNat α 1] [OfNat α 2] (tmin : α) (tmax : α) (sqrt : α → α) (sin : α → α) (cos : α → α) (atan2 : α → α → α) (m : M44 α) : Except Exc (Bool × (V3 α) × (V3 α) × (V3 α) × (V3 α)) :=
@@ -639,7 +639,7 @@ def M44.extractSHRTOrdExc_ZYX {α : Type} [Add α] [Sub α] [Mul α] [Div α] [N
   if t18 = (0 : α) then
     .error Exc.domainError
   else
-    .ok ((true, ⟨(t36).x, (t36).y, (t36).z⟩, ⟨(t40).x, (t40).y, (t40).z⟩, ⟨(t64).x, (t64).y, (t64).z⟩, ⟨m.x30, m.x31, m.x32⟩))
+    .ok ((true, ⟨(t36).x, (t36).y, (t36).z⟩, ⟨(t40).x, (t40).y, (t40).z⟩, ⟨(t64).z, (t64).y, (t64).x⟩, ⟨m.x30, m.x31, m.x32⟩))
 
 /-- extracted from the C++ template at T = Sym; 2 path(s) -/
 def M44.extractSHRTEulerExc_ZYX {α : Type} [Add α] [Sub α] [Mul α] [Div α] [Neg α] [LT α] [LE α] [DecidableLT α] [DecidableLE α] [DecidableEq α] [OfNat α 0] [OfNat α 1] [OfNat α 2] (tmin : α) (tmax : α) (sqrt : α → α) (sin : α → α) (cos : α → α) (atan2 : α → α → α) (m : M44 α) : Except Exc (Bool × (V3 α) × (V3 α) × (V3 α) × (V3 α) × Int) :=
@@ -652,7 +652,7 @@ def M44.extractSHRTEulerExc_ZYX {α : Type} [Add α] [Sub α] [Mul α] [Div α] 
   if t18 = (0 : α) then
     .error Exc.domainError
   else
-    .ok ((true, ⟨(t36).x, (t36).y, (t36).z⟩, ⟨(t40).x, (t40).y, (t40).z⟩, ⟨(t64).z, (t64).y, (t64).x⟩, ⟨m.x30, m.x31, m.x32⟩, (8193 : Int)))
+    .ok ((true, ⟨(t36).x, (t36).y, (t36).z⟩, ⟨(t40).x, (t40).y, (t40).z⟩, ⟨(t64).x, (t64).y, (t64).z⟩, ⟨m.x30, m.x31, m.x32⟩, (8193 : Int)))
 
 /-- extracted from the C++ template at T = Sym; 2 path(s) -/
 def M44.extractSHRT6 {α : Type} [Add α] [Sub α] [Mul α] [Div α] [Neg α] [LT α] [LE α] [DecidableLT α] [DecidableLE α] [DecidableEq α] [OfNat α 0] [OfNat α 1] [OfNat α 2] (tmin : α) (tmax : α) (sqrt : α → α) (sin : α → α) (cos : α → α) (atan2 : α → α → α) (m : M44 α) : (Bool × (V3 α) × (V3 α) × (V3 α) × (V3 α)) :=
